@@ -81,6 +81,11 @@ CHECKS = {
 }
 
 LEVELS = {}
+ 
+CHECKS["C20"] = ("well-formedness monitor on every error object from every entry point and on its generically decoded JSON; exhaustive path encode/decode round trip over a 9-element alphabet",
+         "Exploration with an exhaustive part: every path of names and indices up to length 4 (quick, 7.4k) / 6 (thorough, 600k) over {a, empty, b.c, 0, quoted unicode, 0, 1, 7, 2^31-1} round-trips through JSON; 24k / 480k error-biased cases (token-mutated documents of both grammars with hostile trivia, lexical soups, faulted schemas over named sources, faulted documents under every rule, defective variable maps) feed ~12k error objects per quick run through the shape checks, counted by (entry point, message template).",
+         "The token-limit error (plain error, no source) and Validate's nil-argument guard errors are only checked for a non-empty message.",
+         "DESIGN.md §4 C20")
 
 PENDING_REASON = "check under construction in this round (design in DESIGN.md §4); not claimed until its monitor runs clean on the unchanged tree"
 
